@@ -188,17 +188,20 @@ def run_case(case, R):
         shape = tuple(case["s"])
         nd = len(shape)
         R.state(("diff", shape))
-        for rot in (0, 1):
-            sp = filled(shape, rot)
+        for rot, var in ((0, "canon"), (1, "canon"), (0, "T"), (1, "rev"), (0, "F"), (1, "slice")):
+            if var in ("T", "F") and nd < 2:
+                continue
+            sp = filled(shape, rot, variant=var)
             p, m = build_checked(sp), model_of(sp)
             for ax in range(-nd, nd):
                 edge_shape = tuple(1 if (i == ax % nd) else s for i, s in enumerate(shape))
+                evar = "T" if var != "canon" and len(edge_shape) >= 2 else "rev" if var != "canon" else "canon"
                 extras = {
                     "absent": (None, None),
                     "number": (3, V.const(3)),
                     "poly0d": (build_checked(spec(("q1", "q2"), (), [((1, 1), 2), ((0, 0), 1)])),
                                model_of(spec(("q1", "q2"), (), [((1, 1), 2), ((0, 0), 1)]))),
-                    "array": (build_checked(filled(edge_shape, 3, names=("q0", "q2"))), model_of(filled(edge_shape, 3, names=("q0", "q2")))),
+                    "array": (build_checked(filled(edge_shape, 3, names=("q0", "q2"), variant=evar)), model_of(filled(edge_shape, 3, names=("q0", "q2")))),
                 }
                 for n in (0, 1, 2):
                     for pk, ak in (("absent", "absent"), ("number", "absent"), ("absent", "poly0d"), ("array", "absent"),
@@ -226,17 +229,20 @@ def run_case(case, R):
                             # the same arguments given positionally, in numpy's order (a, n, axis, prepend, append)
                             forms += [("numpoly positional", lambda: numpoly.diff(p, *pos)), ("numpy positional", lambda: numpy.diff(p, *pos))]
                         for sp_, f in forms:
-                            judge(R, f"diff[{sp_}] n={n} axis={ax} prepend={pk} append={ak} on {shape}/{rot}", "diff", f, ref, tags)
+                            judge(R, f"diff[{sp_}] n={n} axis={ax} prepend={pk} append={ak} on {shape}/{rot}/{var}", "diff", f, ref, tags + [f"variant={var}"])
     elif k == "ediff1d":
         R.state("ediff1d")
-        for shape in [(1,), (2,), (3,), (2, 2), (2, 1, 3)]:
-            for rot in (0, 1, 2):
-                sp = filled(shape, rot)
+        for shape in [(1,), (2,), (3,), (2, 2), (2, 1, 3), (2, 3)]:
+            for rot, var in ((0, "canon"), (1, "canon"), (2, "canon"), (0, "T"), (1, "F"), (2, "rev"), (1, "slice"), (2, "T")):
+                if var in ("T", "F") and len(shape) < 2:
+                    continue
+                sp = filled(shape, rot, variant=var)
                 p, m = build_checked(sp), model_of(sp)
                 extras = {
                     "absent": (None, None), "number": (3, V.const(3)),
                     "poly": (build_checked(spec(("q1", "q2"), (), [((1, 1), 2)])), model_of(spec(("q1", "q2"), (), [((1, 1), 2)]))),
-                    "array": (build_checked(filled((2,), 4, names=("q0", "q2"))), model_of(filled((2,), 4, names=("q0", "q2")))),
+                    "array": (build_checked(filled((2,), 4, names=("q0", "q2"), variant="rev" if var != "canon" else "canon")), model_of(filled((2,), 4, names=("q0", "q2")))),
+                    "matrix": (build_checked(filled((2, 2), 5, names=("q0", "q2"), variant="T" if var != "canon" else "canon")), model_of(filled((2, 2), 5, names=("q0", "q2")))),
                 }
                 for bk, ek in itertools.product(extras, repeat=2):
                     kw, ms = {}, []
@@ -258,20 +264,20 @@ def run_case(case, R):
                         posargs = [kw["to_end"]] + ([kw["to_begin"]] if "to_begin" in kw else [])   # numpy's order: (ary, to_end, to_begin)
                         forms += [("numpoly positional", lambda: numpoly.ediff1d(p, *posargs)), ("numpy positional", lambda: numpy.ediff1d(p, *posargs))]
                     for sp_, f in forms:
-                        judge(R, f"ediff1d[{sp_}] to_begin={bk} to_end={ek} on {shape}/{rot}", "ediff1d", f, ref, tags)
+                        judge(R, f"ediff1d[{sp_}] to_begin={bk} to_end={ek} on {shape}/{rot}/{var}", "ediff1d", f, ref, tags + [f"variant={var}"])
     elif k == "innerouter":
         R.state("innerouter")
         for la, lb in itertools.product((1, 2, 3), repeat=2):
             for ra, rb in ((0, 1), (1, 4), (2, 0)):
-                for nb in (("q0", "q1"), ("q1", "q2")):
-                    spa, spb = filled((la,), ra), filled((lb,), rb, names=nb)
+                for nb, va, vb in ((("q0", "q1"), "canon", "canon"), (("q1", "q2"), "canon", "canon"), (("q1", "q2"), "rev", "slice"), (("q0", "q1"), "slice", "rev")):
+                    spa, spb = filled((la,), ra, variant=va), filled((lb,), rb, names=nb, variant=vb)
                     a, b = build_checked(spa), build_checked(spb)
                     ma, mb = to_obj(model_of(spa)), to_obj(model_of(spb))
                     for sp_, f in (("numpoly", lambda: numpoly.outer(a, b)), ("numpy", lambda: numpy.outer(a, b))):
-                        judge(R, f"outer[{sp_}] {la}x{lb} {ra},{rb},{nb}", "outer", f, lambda: numpy.outer(ma, mb), ["outer"])
+                        judge(R, f"outer[{sp_}] {la}x{lb} {ra},{rb},{nb},{va},{vb}", "outer", f, lambda: numpy.outer(ma, mb), ["outer"])
                     if la == lb:
                         for sp_, f in (("numpoly", lambda: numpoly.inner(a, b)), ("numpy", lambda: numpy.inner(a, b))):
-                            judge(R, f"inner[{sp_}] {la} {ra},{rb},{nb}", "inner", f, lambda: numpy.inner(ma, mb), ["inner", "vectors"])
+                            judge(R, f"inner[{sp_}] {la} {ra},{rb},{nb},{va},{vb}", "inner", f, lambda: numpy.inner(ma, mb), ["inner", "vectors"])
         # outer of matrices (numpy flattens) and of numbers
         spa, spb = filled((2, 2), 0), filled((3,), 1)
         a, b = build_checked(spa), build_checked(spb)
@@ -283,15 +289,18 @@ def run_case(case, R):
         R.state("matmul")
         shapes = [(1,), (2,), (3,), (1, 1), (2, 2), (2, 3), (3, 2), (2, 2, 2), (1, 2, 2), (2, 1, 2), (3, 1)]
         for sa, sb in itertools.product(shapes, repeat=2):
-            for ra, rb, nb in ((0, 1, ("q0", "q1")), (1, 3, ("q1", "q2"))):
-                spa, spb = filled(sa, ra), filled(sb, rb, names=nb)
+            for ra, rb, nb, va, vb in ((0, 1, ("q0", "q1"), "canon", "canon"), (1, 3, ("q1", "q2"), "canon", "canon"),
+                                       (1, 3, ("q0", "q1"), "T", "rev"), (0, 2, ("q1", "q2"), "rev", "F")):
+                va = va if va not in ("T", "F") or len(sa) >= 2 else "rev"
+                vb = vb if vb not in ("T", "F") or len(sb) >= 2 else "rev"
+                spa, spb = filled(sa, ra, variant=va), filled(sb, rb, names=nb, variant=vb)
                 a, b = build_checked(spa), build_checked(spb)
                 ma, mb = to_obj(model_of(spa)), to_obj(model_of(spb))
                 tags = [f"x1_ndim={len(sa)}", f"x2_ndim={len(sb)}"] + (["vector_operand"] if 1 in (len(sa), len(sb)) else [])
                 for sp_, f in (("numpoly", lambda: numpoly.matmul(a, b)), ("numpy", lambda: numpy.matmul(a, b)),
                                ("operator", lambda: a @ b)):
-                    judge(R, f"matmul[{sp_}] {sa}@{sb} {ra},{rb}", "matmul", f, lambda: numpy.matmul(ma, mb), tags)
-                if ra == 0:
+                    judge(R, f"matmul[{sp_}] {sa}@{sb} {ra},{rb} {va},{vb},{nb}", "matmul", f, lambda: numpy.matmul(ma, mb), tags)
+                if ra == 0 and va == "canon":
                     nums = numpy.arange(int(numpy.prod(sb))).reshape(sb) - 1
                     judge(R, f"matmul poly {sa} @ ndarray {sb}", "matmul", lambda: a @ nums,
                           lambda: numpy.matmul(ma, nums.astype(object)), tags + ["numeric_operand"])
@@ -302,8 +311,8 @@ def run_case(case, R):
         d = case["d"]
         R.state(("det", d))
         for lead in [(), (2,), (1, 2)]:
-            for rot in (0, 1, 2, 3):
-                sp = filled(lead + (d, d), rot)
+            for rot, var in ((0, "canon"), (1, "canon"), (2, "canon"), (3, "canon"), (1, "T"), (2, "rev"), (3, "F")):
+                sp = filled(lead + (d, d), rot, variant=var)
                 p, m = build_checked(sp), model_of(sp)
                 mo = to_obj(m)
 
@@ -326,6 +335,6 @@ def run_case(case, R):
                     return out
                 tags = [f"dim={d}", "stacked" if lead else "single"]
                 for sp_, f in (("numpoly", lambda: numpoly.det(p)), ("numpy", lambda: numpy.linalg.det(p))):
-                    judge(R, f"det[{sp_}] {lead + (d, d)}/{rot}", "det", f, ref, tags)
+                    judge(R, f"det[{sp_}] {lead + (d, d)}/{rot}/{var}", "det", f, ref, tags)
     else:
         raise KeyError(k)
